@@ -236,7 +236,7 @@ fire("C10", L, "            # A range without a line is continued without a line
 fire("C14", I, "                    and arg not in seen\n                ):\n                    seen.add(arg)", "                    and arg.constant not in seen\n                ):\n                    seen.add(arg.constant)", "the once-only set keyed by value (R14.4)")
 M.append(dict(kind="fire", pid="C11", file=B, old="            unit_line = line_mapping.offset_to_line.pop(i, instruction.line_number)\n", new="            line_mapping.offset_to_line.pop(i, None)\n            unit_line = instruction.line_number\n", why="later units' lines dropped silently (R11.L)"))
 fire("C12", "code_data/_constants.py", "    if isinstance(value, tuple):\n        return tuple(map(from_constant, value))\n", "", "the argument's own tuples handed to CodeType (R12.8)")
-fire("C16", CLI, "        code = compile(file.read_bytes(), str(file), \"exec\")", "        code = compile(file.read_text(), str(file), \"exec\")", "the original defect: file decoded before compiling (R16.6)")
+fire("C16", "code_data/_cli.py", "        code = compile(pathlib.Path(file).read_bytes(), file, \"exec\")", "        code = compile(pathlib.Path(file).read_text(), file, \"exec\")", "the original defect: file decoded before compiling (R16.6)")
 fire("C07", J, "        return Name(**{**value, \"name\": string_from_json(value[\"name\"])})", "        return Name(**value)", "the original defect: tagged name stored as a dict (R07.2)")
 fire("C08", "code_data/_constants.py", "        return frozenset(Counter(map(constant_key, value)).items())", "        return frozenset(map(constant_key, value))", "the original defect: multiplicity of equal keys lost (R08.4)")
 fire("C11", C, "        if args:\n            raise AssertionError(\"if this isn't a function, it shouldn't have args\")", "        assert not args, \"if this isn't a function, it shouldn't have args\"", "the original defect: guard vanishes under -O (R11.A)")
@@ -275,8 +275,8 @@ silent(["C12", "C07"], J, "def constant_value_from_json(value: object) -> object
 fire("C07", H, "    return getattr(value, f.name) == default", "    return getattr(value, f.name) == default or not getattr(value, f.name)", "falsy values hidden as defaults (R07.4)")
 silent(["C07", "C16", "C15"], H, "    return getattr(value, f.name) == default", "    current = getattr(value, f.name)\n    return current == default", "same predicate through a local")
 fire("C15", J, "def strings_from_json(value: list) -> tuple:\n", "def strings_from_json(value: list) -> tuple:\n    for _s in value:\n        if isinstance(_s, str) and not _s.isprintable():\n            raise ValueError(_s)\n", "Unicode-database predicate on document data (R15.2)")
-fire("C16", "code_data/_cli.py", "        code = compile(file.read_bytes(), str(file), \"exec\")", "        code = compile(file.read_bytes(), str(file.resolve()), \"exec\")", "filename rewritten (R16.6)")
-silent(["C16"], "code_data/_cli.py", "        code = compile(file.read_bytes(), str(file), \"exec\")", "        code = compile(file.read_bytes(), os.fspath(file), \"exec\")", "fspath is the path as given")
+fire("C16", "code_data/_cli.py", "        code = compile(pathlib.Path(file).read_bytes(), file, \"exec\")", "        code = compile(pathlib.Path(file).read_bytes(), os.path.abspath(file), \"exec\")", "filename rewritten (R16.6)")
+silent(["C16"], "code_data/_cli.py", "        code = compile(pathlib.Path(file).read_bytes(), file, \"exec\")", "        code = compile(pathlib.Path(file).read_bytes(), os.fspath(file), \"exec\")", "fspath is the path as given")
 fire("C11", A, "        argcount=len(args.positional_only) + len(args.positional_or_keyword),", "        argcount=len(set(args.positional_only)) + len(args.positional_or_keyword),", "counts distinct names (R11.C)")
 fire("C06", J, "        value = copy(value)\n        if isinstance(value[\"constant\"], dict)", "        if isinstance(value[\"constant\"], dict)", "document mutated while loading (R06.M)")
 fire("C05", N, "    if isinstance(x, (Name, Varname, Cellvar)):", "    if isinstance(x, (Name, Varname)):", "Cellvar override survives while unused cells are dropped (R05.Z)")
@@ -299,3 +299,10 @@ fire("C03", B, "    return max(instruction._n_args_override or 1, _instrsize(arg
 fire("C03", B, "                    if n_instructions != _n_args(instruction, new_arg_value):", "                    if not instruction._n_args_override and n_instructions != _instrsize(new_arg_value):", "no new layout pass when a jump outgrows its recorded width (R03.7)")
 silent(["C03", "C05", "C01", "C06"], B, "    return max(instruction._n_args_override or 1, _instrsize(arg_value))", "    minimal = _instrsize(arg_value)\n    recorded = instruction._n_args_override\n    return minimal if recorded is None or recorded < minimal else recorded", "the same maximum spelled out")
 fire("C11", C, "    if len(set(code.co_freevars)) != len(code.co_freevars):\n", "    if False:\n", "the original defect: repeated free variable names accepted (R11.Q)")
+fire("C11", B, "        if dis.opname[opcode] not in dis.opmap:\n", "        if False:\n", "the original defect: undefined opcode bytes decoded as '<7>' (R11.O)")
+silent(["C11", "C02", "C13"], B, "        if dis.opname[opcode] not in dis.opmap:\n", "        if dis.opname[opcode].startswith(\"<\"):\n", "same test through the placeholder name")
+fire("C07", J, "            if not isinstance(string, str):\n                raise ValueError(f\"Expected the literal of a string: {value}\")\n", "", "the original defect: any literal accepted under {string} (R07.3)")
+CLI = "code_data/_cli.py"
+fire("C16", CLI, 'parser.add_argument("file", type=str, nargs="?", help="path to Python program")', 'parser.add_argument("file", type=pathlib.Path, nargs="?", help="path to Python program")', "the original defect: pathlib normalises the typed path (R16.6)")
+fire("C16", CLI, "        if show_source:\n            with tokenize.open(file) as source_file:\n                source = source_file.read()\n", "        with tokenize.open(file) as source_file:\n            source = source_file.read()\n", "the original defect: text decoded without --source (R16.5)")
+fire("C16", CLI, "        if show_source:\n            source = spec.loader.get_source(mod)  # type: ignore\n", "        source = spec.loader.get_source(mod)  # type: ignore\n", "same for -m (R16.5)")
